@@ -490,7 +490,8 @@ func VerifC13Locks() {
 	verifTrackLocks(&r.mx, r)
 	// the scheduler goroutine reads job.sched without the lock: written before the `go` statement that
 	// starts it and next written by that goroutine's own JobCompleted (happens-before via go / program order)
-	verifTrackAllow("(*github.com/Flowpack/prunner.PipelineRunner).startJob$1")
+	// (the allowance is by field and only while that goroutine runs, see ret below - not by function
+	// name, so that moving the goroutine body into a method does not raise an alarm)
 	// fields set once in NewPipelineRunner and never written again may be read without the lock;
 	// any later write to them is reported
 	for _, f := range []string{"*r.store", "*r.outputStore", "*r.persistRequests", "*r.createTaskRunner"} {
@@ -513,7 +514,11 @@ func VerifC13Locks() {
 		verifTrackRefresh()
 		w.retResult = nil
 		vj.live = false
+		verifTrackAllow("**r.jobsByID[k].sched")
+		verifTrackAllow("**r.jobsByID[k].ID")
 		verifRunSpawned(vj.spawnIdx)
+		verifTrackDisallow("**r.jobsByID[k].sched")
+		verifTrackDisallow("**r.jobsByID[k].ID")
 		w.scanSpawned()
 		verifTrackRefresh()
 	}
